@@ -224,29 +224,12 @@ def rule_c(ctx, disc):
     valid = {}
     for r in _tsv("siginfo_field_validity.tsv"):
         valid[norm(r[0])] = (r[1] == "yes")
-    sw = [b for b in range(hp.nblocks()) if hp.term(b)["k"] == "switch"]
-    if len(sw) != 1:
-        raise AnchorLost("has_process: single switch")
-    t = hp.term(sw[0])
-
-    def retval(bb):
-        seen = set()
-        while bb not in seen:
-            seen.add(bb)
-            for s in hp.stmts(bb):
-                if s["k"] == "assign" and s["l"]["l"] == 0 and s["r"]["k"] == "use" and s["r"]["o"]["k"] == "const":
-                    return s["r"]["o"]["c"].get("val")
-            nx = hp.succ(bb, False)
-            if len(nx) != 1:
-                return None
-            bb = nx[0]
-        return None
-    m = {v: retval(b) for v, b in t["vals"]}
+    from ..flow import eval_on_discriminant
     for d, name in sorted(disc.items()):
-        got = m.get(d, retval(t["else"]))
+        got = eval_on_discriminant(hp, d)
         want = valid.get(norm(name))
-        ctx.check(want is not None and got == int(want), rid, "has_process:%s" % name, "has_process(%s) = %s (kernel fills si_pid/si_uid: %s)" % (name, bool(got), want), hp.span,
-                  {"code": got, "oracle": want})
+        ctx.check(want is not None and got is not None and got == int(want), rid, "has_process:%s" % name,
+                  "has_process(%s) = %s (kernel fills si_pid/si_uid: %s)" % (name, None if got is None else bool(got), want), hp.span, {"code": got, "oracle": want})
 
 
 def rule_d(ctx):
